@@ -49,8 +49,8 @@ var effTable = map[string]string{
 	"flag.BoolVar": effEnv, "flag.StringVar": effEnv, "flag.IntVar": effEnv, "flag.Parsed": effEnv, "flag.NFlag": effEnv,
 	// os
 	"os.Getenv": effEnv, "os.LookupEnv": effEnv, "os.Environ": effEnv, "os.ExpandEnv": effEnv,
-	"os.Exit":   effProc,
-	"os.Stat":   effFSRead, "os.Lstat": effFSRead, "os.SameFile": effPure, "os.ReadFile": effFSRead, "os.Open": effFSRead, "os.ReadDir": effFSRead, "os.Readlink": effFSRead,
+	"os.Exit": effProc,
+	"os.Stat": effFSRead, "os.Lstat": effFSRead, "os.SameFile": effPure, "os.ReadFile": effFSRead, "os.Open": effFSRead, "os.ReadDir": effFSRead, "os.Readlink": effFSRead,
 	"os.IsNotExist": effPure, "os.IsExist": effPure, "os.IsPermission": effPure,
 	"os.WriteFile": effFSWrit, "os.OpenFile": effFSWrit, "os.Create": effFSWrit, "os.CreateTemp": effFSWrit, "os.Remove": effFSWrit, "os.RemoveAll": effFSWrit,
 	"os.Rename": effFSWrit, "os.Mkdir": effFSWrit, "os.MkdirAll": effFSWrit, "os.MkdirTemp": effFSWrit, "os.Chmod": effFSWrit, "os.Chown": effFSWrit, "os.Chtimes": effFSWrit,
@@ -68,6 +68,7 @@ var effTable = map[string]string{
 	// time
 	"time.Now": effNondet, "time.Since": effNondet, "time.Until": effNondet, "time.Sleep": effNondet, "time.After": effNondet, "time.Tick": effNondet, "time.NewTimer": effNondet,
 	// randomness
+	"maps.Keys": effNondet, "maps.Values": effNondet, "maps.All": effNondet, // iteration order of a map
 	"github.com/matoous/go-nanoid.Nanoid": effNondet, "github.com/matoous/go-nanoid.ID": effNondet, "github.com/matoous/go-nanoid.Generate": effNondet,
 	// parsing / loading
 	"go/parser.ParseFile": effPure, "go/parser.ParseExpr": effPure, "go/parser.ParseDir": effFSRead,
